@@ -156,3 +156,26 @@ Proof.
   intros n Hn. rewrite forallb_forall in H. specialize (H n). rewrite in_seq in H. specialize (H (conj (Nat.le_0_l n) Hn)).
   destruct (renumber (decimal n)); [|discriminate]. apply str_eqb_eq in H. now subst.
 Qed.
+
+(* ---------- C09: totality ---------- *)
+From Minidyn Require Import Proofs.ParserFuel.
+
+(* Match and Update terminate on every expression, item and bindings with a result or a syntax / unsupported error:
+   the parser's fuel is never exhausted (ParserFuel.v) and the evaluators are structurally recursive on the tree *)
+Theorem lang_match_total expr it vals names :
+  (exists b, lang_match expr it vals names = Ok b) \/ lang_match expr it vals names = Err Syntax \/
+  lang_match expr it vals names = Err Unsupported.
+Proof.
+  unfold lang_match. destruct (parse_cond_total expr) as [ast [k ->]].
+  destruct (negb (k =? 0)); auto. destruct (add_attributes [] it); auto. destruct (add_attributes f vals); auto.
+  destruct (eval_conditional _ ast); eauto.
+Qed.
+
+Theorem lang_update_total expr it vals names :
+  (exists it', lang_update expr it vals names = Ok it') \/ lang_update expr it vals names = Err Syntax \/
+  lang_update expr it vals names = Err Unsupported.
+Proof.
+  unfold lang_update. destruct (parse_upd_total expr) as [ast [k ->]].
+  destruct (negb (k =? 0)); auto. destruct (add_attributes [] it); auto. destruct (add_attributes f vals); auto.
+  destruct (eval_update_stmt _ ast); eauto.
+Qed.
